@@ -30,6 +30,8 @@ type Obligation struct {
 	Ctx     *Ctx
 	Expect  string // "unsat" normally; "sat" for vacuity covers
 	Clause  *Clause
+	Extra   []string // extra assumptions of one case of a case split (see splitDischarge)
+	NoQAxioms bool   // leave the quantified spec-function axioms out (a proof without them is still a proof)
 }
 
 type InputVar struct {
@@ -66,6 +68,7 @@ type Ctx struct {
 	rawSorts    map[types.Object]string
 	qN          int
 	axioms      []string
+	qaxioms     []string // quantified definitional axioms of spec functions (can be left out of a query)
 	prePC       []string
 	preDecls    int
 	exitCount   int
